@@ -16,6 +16,7 @@ from concurrent.futures import ThreadPoolExecutor
 from .. import build, run, gen_schema, probes, p21fam
 from .. import c02_model, c02_acc, c02_extras
 from .. import c02_probes   # noqa: F401  (registers the probes and their masks)
+from .. import c02_redecl   # (registers the explicit re-declaration matrix probe)
 
 FLAVOUR = 'san'
 AVOID_SCHEMA = probes.masked_schema_features('C02')
@@ -126,11 +127,18 @@ def run_regdump(case, env):
         r = run.run([exe, 'inst'] + skip, cwd=case.dir, env=env, timeout=120)
         d2 = c02_model.parse_dump(r.out)
         dump['insts'].update(d2['insts'])
+        dump['p21'].update(d2['p21'])
         dump['begun'] += d2['begun']
         if d2['done'] and not r.crashed() and r.rc == 0:
             dump['done'] = True
             break
-        cur = d2['begun'][-1] if d2['begun'] and c02_model.lc(d2['begun'][-1]) not in d2['insts'] else None
+        last = d2['begun'][-1] if d2['begun'] else None
+        if last is not None and c02_model.lc(last) in d2['insts'] and c02_model.lc(last) not in d2['p21'] and 'w:' + last not in skip:
+            # created and listed, died while the fresh instance was written
+            crashes.append(('writing a fresh instance', last, r))
+            skip.append('w:' + last)
+            continue
+        cur = last if last is not None and c02_model.lc(last) not in d2['insts'] else None
         crashes.append(('instance creation', cur, r))
         if cur is None or cur in skip:
             break
@@ -205,7 +213,7 @@ def judge(chk, case, env):
         if r.timed_out:
             chk.inconc('regdump timed out on %s' % s.name)
             continue
-        shape = 'dictionary' if phase == 'dictionary' else 'instance creation, attribute kinds %s' % (entity_ctor_shape(s, ent) if ent else 'unknown')
+        shape = 'dictionary' if phase == 'dictionary' else '%s, attribute kinds %s' % (phase, entity_ctor_shape(s, ent) if ent else 'unknown')
         found.append(('crash|%s|%s' % (shape, r.symptom()), 'regdump %s%s: %s %s' % (phase, ' of ' + ent if ent else '', r.symptom(), run.san_frames(r.err)),
                       dict(files, stderr=r.err[-6000:], stdout=r.out[-3000:])))
     if dump.get('bad'):
@@ -263,6 +271,7 @@ def main(chk):
         cases.append(Case(c02_extras.demask(s), 'corpus'))
     for s in c02_extras.extras(chk.seed, chk.tier):
         cases.append(Case(s, 'extra'))
+    cases.append(Case(c02_extras.demask(c02_redecl.derived_matrix()), 'extra'))
     for p in probes.PROBES.get('C02', []):
         p.prepare()
         cases.append(Case(p.schema, 'probe', p))
